@@ -4,7 +4,7 @@ import core, framework, enc
 from props import common, c07
 
 LEVEL = 'proof'
-MODULES = ['TlsModel.Props.C06']
+MODULES = ['TlsModel.Props.C06', 'TlsModel.Props.C06Alias']
 SD_OPS = ('tls_plaintext', 'tls_raw', 'tls_encrypted', 'dtls_record', 'msg_handshake', 'dtls_hs', 'ext', 'ext_client', 'ext_server',
           'sct', 'sct_list', 'dh', 'ecdh', 'ec_params', 'dsig', 'dsig_old', 'content_sig', 'tls_header', 'dtls_header', 'ext_unknown')
 
